@@ -218,8 +218,9 @@ fn run_rrsets(trace: bool) -> CaseResult {
     let mut w = World::one(lay_v4());
     w.trace = trace;
     w.ds[0].h.set_ip_check_interval(3600).unwrap();
-    for nm in ["alpha", "beta"] {
-        w.ds[0].h.register(svc("_t._tcp.local.", nm, "host.local.", "10.0.0.5,10.0.0.6", 80, &[])).unwrap();
+    // (alpha is registered under a subtype: a subtype PTR is among the additionals its PTR brings)
+    for (nm, ty) in [("alpha", "_s._sub._t._tcp.local."), ("beta", "_t._tcp.local.")] {
+        w.ds[0].h.register(svc(ty, nm, "host.local.", "10.0.0.5,10.0.0.6", 80, &[])).unwrap();
         w.poke(0);
     }
     w.advance(4000);
@@ -255,6 +256,15 @@ fn run_rrsets(trace: bool) -> CaseResult {
                         res.count("rrset_suppression_expected", 1);
                         if present {
                             res.viols.push(viol(format!("C10|responder|answer-not-suppressed|one-of-several-records-of-the-name-and-type|type{}", r.rtype), ctx()));
+                        }
+                        // a suppressed PTR takes what it would have brought with it: nothing in the
+                        // response may name that instance
+                        if let RD::Ptr(target) = &r.rd {
+                            if let Some(stray) = resp.and_then(|m| m.all_records().find(|y| name_eq_ci(&y.name, target) || matches!(&y.rd, RD::Ptr(t) if name_eq_ci(t, target)))) {
+                                if !present {
+                                    res.viols.push(viol("C10|responder|additionals-of-a-suppressed-answer-still-sent", format!("{}: {}", ctx(), stray.summary())));
+                                }
+                            }
                         }
                     } else {
                         res.count("rrset_answer_expected", 1);
